@@ -715,14 +715,17 @@ fn local(m: &Model, ctx: &mut Ctx, consts: &dyn Fn(&str) -> Option<Val>) {
 fn misread_value(m: &Model, ctx: &mut Ctx, consts: &dyn Fn(&str) -> Option<Val>) {
     let rule = "C10.class";
     let named = |n: &str, fields: Vec<(&str, Val)>| Val::Ctor(n.to_string(), vec![], fields.into_iter().map(|(k, v)| (k.to_string(), v)).collect::<BTreeMap<_, _>>());
+    let header = |module: &str| Val::some(named("ModuleHeader", vec![("name", Val::Str(module.into()))]));
     let object = |class: Val| named("ToplevelInformationDefinition", vec![
         ("name", Val::Str("abstractSyntax".into())),
         ("class", class),
         ("value", Val::Ctor("Object".into(), vec![Val::Opaque("fields".into())], BTreeMap::new())),
         ("parameterization", Val::none()),
+        ("module_header", header("Here")),
     ]);
     let by_name = |n: &str| Val::Ctor("ByName".into(), vec![Val::Str(n.into())], BTreeMap::new());
-    let ty_tld = Val::Ctor("Type".into(), vec![named("ToplevelTypeDefinition", vec![("name", Val::Str("ID".into())), ("ty", Val::Ctor("ObjectIdentifier".into(), vec![Val::Opaque("oid".into())], BTreeMap::new()))])], BTreeMap::new());
+    let ty_tld_in = |module: &str| Val::Ctor("Type".into(), vec![named("ToplevelTypeDefinition", vec![("name", Val::Str("ID".into())), ("ty", Val::Ctor("ObjectIdentifier".into(), vec![Val::Opaque("oid".into())], BTreeMap::new())), ("module_header", header(module))])], BTreeMap::new());
+    let ty_tld = ty_tld_in("Here");
     let class_tld = Val::Ctor("Class".into(), vec![named("ToplevelClassDefinition", vec![("name", Val::Str("CLS".into())), ("definition", Val::Sym("<class CLS>".into()))])], BTreeMap::new());
     ctx.oblige(rule, "misread-value:reported", true);
     ctx.oblige(rule, "real-object:quiet", true);
@@ -737,17 +740,28 @@ fn misread_value(m: &Model, ctx: &mut Ctx, consts: &dyn Fn(&str) -> Option<Val>)
     let hook = |_: &Evaluator, name: &str, a: &[Val]| -> Option<Result<Val, String>> {
         match name {
             "LinkerError::new" | "GrammarError::new" | "CompilerError::from" => Some(Ok(Val::Sym(format!("<error {}>", a.iter().map(|v| v.show()).collect::<Vec<_>>().join(" ").chars().take(80).collect::<String>())))),
+            // Rc<RefCell<ModuleHeader>> is modelled by the header itself
+            ".borrow" | ".borrow_mut" | ".clone" | ".cloned" | ".as_ref" if a.len() == 1 => Some(Ok(a[0].clone())),
             _ => None,
         }
     };
-    let inl = inline_all(m, &["ToplevelInformationDefinition"]);
+    let mut inl = inline_all(m, &["ToplevelInformationDefinition"]);
+    // helpers of the validator and of the definitions it asks about (`get_module_header`, a module comparison, ..)
+    for (ty, only) in [("Validator", None), ("ToplevelDefinition", Some(["get_module_header", "name"]))] {
+        for g in m.fns.iter().filter(|g| g.self_ty.as_deref() == Some(ty) && g.trait_.is_none() && g.name != "link" && g.name != "validate" && only.map(|o| o.contains(&g.name.as_str())).unwrap_or(true)) {
+            let ps: Vec<String> = g.sig.inputs.iter().filter_map(|a| match a { syn::FnArg::Typed(t) => Some(tok(&t.pat).replace("mut ", "")), _ => None }).collect();
+            let has_self = g.sig.inputs.iter().any(|a| matches!(a, syn::FnArg::Receiver(_)));
+            inl.entry(if has_self { format!(".{}", g.name) } else { g.name.clone() }).or_insert((ps, g.block.clone()));
+        }
+    }
     let ev = Evaluator { consts, call_hook: &hook, inline: Some(&inl) };
     let mut linker_reports = None;
     let mut linker_quiet = None;
     if let Some((mt, i)) = &arm {
-        for (class, want_warning) in [("ID", true), ("CLS", false), ("NOT-SUPPLIED", false)] {
+        // the governing type may be a definition of the object's own module or of another one (imported)
+        for (class, want_warning, type_module) in [("ID", true, "Here"), ("ID", true, "Elsewhere"), ("CLS", false, "Here"), ("NOT-SUPPLIED", false, "Here")] {
             let mut tlds = crate::eval::new_map();
-            tlds = crate::eval::map_insert(tlds, Val::Str("ID".into()), ty_tld.clone());
+            tlds = crate::eval::map_insert(tlds, Val::Str("ID".into()), if type_module == "Here" { ty_tld.clone() } else { ty_tld_in(type_module) });
             tlds = crate::eval::map_insert(tlds, Val::Str("CLS".into()), class_tld.clone());
             let mut env = Env::new();
             env.insert("self".into(), named("Validator", vec![("tlds", tlds)]));
@@ -765,7 +779,13 @@ fn misread_value(m: &Model, ctx: &mut Ctx, consts: &dyn Fn(&str) -> Option<Val>)
                 }
             });
             match r {
-                Ok(n) if want_warning => linker_reports = Some(n > 0),
+                Ok(n) if want_warning => {
+                    if type_module != "Here" && n == 0 && linker_reports == Some(true) {
+                        ctx.violate(rule, "misread-value:silent:imported-governor", &f.file, f.line,
+                            "`w ID ::= { a 1 }` with the type ID defined in *another* module (imported): the linker reports the misread value assignment only when the governing type is a definition of the same module — here the assignment is read as an information object, generates nothing and is not the subject of any warning");
+                    }
+                    if type_module == "Here" { linker_reports = Some(n > 0); }
+                }
                 Ok(n) => {
                     if n > 0 {
                         linker_quiet = Some(class);
